@@ -5,6 +5,7 @@ pub mod c11;
 pub mod c12;
 pub mod c13;
 pub mod hist;
+pub mod mgr;
 
 use crate::harness::Arm;
 
@@ -17,6 +18,8 @@ pub fn all_arms() -> Vec<Box<dyn Arm>> {
     v.push(Box::new(c11::C11));
     v.push(Box::new(c12::C12));
     v.push(Box::new(c13::C13));
+    v.push(Box::new(mgr::MgrArm { id: "C15" }));
+    v.push(Box::new(mgr::MgrArm { id: "C16" }));
     v
 }
 
